@@ -70,7 +70,7 @@ impl SnippetProvider {
 }
 
 pub(crate) struct FmtVisitor<'a> {
-    parent_context: Option<&'a RewriteContext<'a>>,
+    pub(crate) parent_context: Option<&'a RewriteContext<'a>>,
     pub(crate) psess: &'a ParseSess,
     pub(crate) buffer: String,
     pub(crate) last_pos: BytePos,
